@@ -6,13 +6,13 @@
                    on_timeout : list of [id; act; raises], act = [] | [[who; event]], who = [] | [model]
                    enter, exit : list of [id; [] | [event]]
      transitions : list of [event; src; dst option; condition outcome]
-     history     : list of [0; model; event] | [1; dt]
+     history     : list of [0; model; event] | [1; dt] | [2; state; timeout]
    answer  := [1; [1; 1]]                          construction raised AttributeError
             | [1; [0; steps; verdict]]             steps of the run, spec_C17 on the model's own trace
             | [1; [2; verdict]]                    answer to request 1
      step : [items; [] or [result]; state of every model; clock]
      item : [kind; ...] with kinds 0 TExited 1 TEntered 2 TFired 3 CExit 4 CEnter 5 CTimeout 6 COnExc
-            7 CEscape 8 CRes 9 TUser;  result : 0 False 1 True 2 MachineError 3 AttributeError 4 out of fuel *)
+            7 CEscape 8 CRes 9 TUser 10 TSetTimeout;  result : 0 False 1 True 2 MachineError 3 AttributeError 4 out of fuel *)
 From Coq Require Import List Arith Bool.
 From M Require Import Sx Timer TimerSpec.
 Import ListNotations.
@@ -50,6 +50,7 @@ Definition d_top (x : sx) : option top :=
   match x with
   | L [N 0; N m; N e] => Some (HEvent m e)
   | L [N 1; N dt] => Some (HAdvance dt)
+  | L [N 2; N s; N v] => Some (HSetTimeout s v)
   | _ => None
   end.
 
@@ -73,6 +74,7 @@ Definition e_titem (i : titem) : sx :=
   | CEscape cb m t => L [N 7; N cb; N m; N t]
   | CRes m e r t => L [N 8; N m; N e; e_tres r; N t]
   | TUser m e t => L [N 9; N m; N e; N t]
+  | TSetTimeout s v t => L [N 10; N s; N v; N t]
   end.
 
 Definition d_titem (x : sx) : option titem :=
@@ -87,6 +89,7 @@ Definition d_titem (x : sx) : option titem :=
   | L [N 7; N cb; N m; N t] => Some (CEscape cb m t)
   | L [N 8; N m; N e; r; N t] => do r' <- d_tres r; Some (CRes m e r' t)
   | L [N 9; N m; N e; N t] => Some (TUser m e t)
+  | L [N 10; N s; N v; N t] => Some (TSetTimeout s v t)
   | _ => None
   end.
 
@@ -109,7 +112,7 @@ Definition run_timer_case (x : sx) : sx :=
           | Some XAttribute => L [N 1; L [N 1; N 1]]
           | None =>
               let c := mkTC a q (states_cfg sts) ts ig oe in
-              let w0 := init_world s0 in
+              let w0 := init_world c s0 in
               L [N 1; L [N 0; L (map (e_tstep nm) (run c w0 h));
                          e_bool (spec_C17 c nm s0 (run_trace c w0 h) (w_clock (run_world c w0 h)))]]
           end
